@@ -295,3 +295,13 @@ func checkShapeTable(gr *Grammar) []string {
 }
 
 var _ = constant.MakeBool
+
+// typeIsRuntime: t is the runtime type of some node kind (directly registered in providerMap).
+func (pt *ProviderTable) typeIsRuntime(t *types.Named) (string, bool) {
+	for k, rt := range pt.Kind2Type {
+		if rt == t {
+			return k, true
+		}
+	}
+	return "", false
+}
